@@ -40,7 +40,19 @@ func (fr *Frame) loopModSet(li *loopInfo) map[string]bool {
 		vc.modSetBlock(fr.fn, b, set, map[*ssa.Function]bool{})
 	}
 	// ghost variables may be assigned by site clauses inside the loop
+	// (the top function's ghost variables can be assigned inside this loop only by site clauses
+	// that apply here: this is the top function, a closure nested in it, or the loop makes calls
+	// the generator cannot resolve, through which such a closure might run)
+	reachesTop := fr == fr.top || set["*"]
+	for p := fr.fn.Parent(); p != nil; p = p.Parent() {
+		if p == fr.top.fn {
+			reachesTop = true
+		}
+	}
 	for _, own := range []*Frame{fr, fr.top} {
+		if own == fr.top && own != fr && !reachesTop {
+			continue
+		}
 		oc := own.contract
 		if oc == nil {
 			oc = own.ownContract()
@@ -242,6 +254,9 @@ func (fr *Frame) siteCall(c *ssa.CallCommon, pos token.Pos, args []Val, before b
 		}
 		if c.IsInvoke() {
 			env.vars["recv"] = fr.get(c.Value)
+		} else if sf := c.StaticCallee(); sf != nil && sf.Signature.Recv() != nil && len(args) > 0 {
+			// a static method call: the receiver is the first argument
+			env.vars["recv"] = args[0]
 		}
 		if res != nil {
 			bindResults(fr.vc, env, c.Signature(), nil, padResult(fr.vc, *res, c.Signature()))
